@@ -437,7 +437,9 @@ func getEmailFromJSON(json *simplejson.Json) (string, error) {
 	if err != nil || email == "" {
 		otherMails, otherMailsErr := json.Get("otherMails").Array()
 		if len(otherMails) > 0 {
-			email = otherMails[0].(string)
+			if mail, ok := otherMails[0].(string); ok {
+				email = mail
+			}
 		}
 		err = otherMailsErr
 	}
